@@ -146,6 +146,56 @@ fn c08_eval_symbolic_table() {
     core::mem::forget(ts);
 }
 
+/// Automata generated by the freshly built parol for the corpus grammars (concrete tables,
+/// symbolic automaton index and symbolic lookahead tokens).
+fn tables_body(autos: &'static [LookaheadDFA], max_k: usize) {
+    // concrete loop over the automata: each iteration sees a concrete table (a symbolic index
+    // makes every loop bound of `eval` symbolic and did not finish in 40 min)
+    let mut idx = 0;
+    let mut any_ok = false;
+    let mut any_err = false;
+    while idx < autos.len() {
+        let dfa = &autos[idx];
+        let la: [TerminalIndex; LA_MAX] = kani::any();
+        let mut q = 0;
+        while q < LA_MAX {
+            kani::assume(la[q] == 0 || (la[q] >= 5 && la[q] <= 16));
+            if q + 1 < LA_MAX { kani::assume(la[q] != 0 || la[q + 1] == 0); }
+            q += 1;
+        }
+        unsafe { LA = la; }
+        let mut ts = empty_stream(max_k);
+        let r = dfa.eval(&mut ts, idx);
+        let exp = reference(dfa.prod0, dfa.transitions, dfa.k, &la, 24);
+        match &r {
+            Ok(p) => { assert!(exp == Some(*p)); any_ok = true; }
+            Err(_) => { assert!(exp.is_none()); any_err = true; }
+        }
+        core::mem::forget(r);
+        core::mem::forget(ts);
+        idx += 1;
+    }
+    kani::cover!(any_ok);
+    kani::cover!(any_err);
+}
+
+macro_rules! c08_tables {
+    ($($name:ident: $m:ident;)*) => { $(
+        #[kani::proof]
+        #[kani::unwind(26)]
+        #[kani::stub(std::fmt::format, stub_format)]
+        #[kani::stub(crate::TokenStream::lookahead_token_type, stub_lookahead_token_type)]
+        #[kani::stub(crate::TokenStream::token_types, stub_token_types)]
+        fn $name() { tables_body(super::tables::$m::LOOKAHEAD_AUTOMATA, super::tables::$m::MAX_K); }
+    )* };
+}
+
+c08_tables! {
+    c08_tab_anbn: ll_anbn; c08_tab_k2: ll_k2; c08_tab_k3: ll_k3; c08_tab_unite: ll_unite_order;
+    c08_tab_nullable: ll_nullable_tail; c08_tab_expr: ll_expr; c08_tab_leftfactor: ll_leftfactor;
+    c08_tab_k3_nt: ll_k3_nt; c08_tab_list_k2: ll_list_k2;
+}
+
 /// vacuity twin: must FAIL
 #[kani::proof]
 #[kani::unwind(8)]
